@@ -30,6 +30,28 @@ func complementTable(c *Ctx, rule string) (map[rune]rune, token.Pos, bool) {
 		t = tb.T(rets[0].Results[0])
 		ok = t.Op == "lookup" && t.Name == "" && t.Args[0].Op == "global" && t.Args[1].isParam(0)
 	}
+	identityDefault := false
+	if !ok && len(rets) == 2 {
+		// "if c, ok := table[base]; ok { return c }; return base": the table, with letters it does not list left
+		// as they are
+		var hit, miss *Term
+		for _, r := range rets {
+			if len(r.Results) != 1 {
+				continue
+			}
+			rt := tb.T(r.Results[0])
+			switch {
+			case rt.isParam(0):
+				miss = rt
+			case rt.Op == "extract" && rt.Name == "0" && len(rt.Args) == 1 && rt.Args[0].Op == "lookup" && rt.Args[0].Name == ",ok" && rt.Args[0].Args[0].Op == "global" && rt.Args[0].Args[1].isParam(0):
+				hit = rt
+			}
+		}
+		if hit != nil && miss != nil {
+			t = &Term{Op: "lookup", Args: hit.Args[0].Args, V: hit.Args[0].V}
+			ok, identityDefault = true, true
+		}
+	}
 	if !ok {
 		// a switch over the argument with constant cases and constant results is the same table
 		if m, okS := tableFromSwitch(cb); okS {
@@ -57,6 +79,42 @@ func complementTable(c *Ctx, rule string) (map[rune]rune, token.Pos, bool) {
 	if !ok {
 		c.undecided(rule, "complement table", av.Pos, "complement table is not a literal of constant rune pairs (or has a duplicate key)")
 		return nil, 0, false
+	}
+	if identityDefault {
+		// letters the table does not list come back unchanged from ComplementBase; a reader that indexes the
+		// table itself gets the zero rune for them
+		var lacking []string
+		for k := range oracleComplement() {
+			if _, have := m[k]; !have {
+				lacking = append(lacking, string(k))
+			}
+		}
+		sort.Strings(lacking)
+		if len(lacking) > 0 {
+			if sp := w.spkg("transform"); sp != nil {
+				if g, _ := sp.Members[name].(*ssa.Global); g != nil {
+					for _, f := range w.moduleFuncs() {
+						if f == cb {
+							continue
+						}
+						eachInstr(f, func(i ssa.Instruction) {
+							lk, isLk := i.(*ssa.Lookup)
+							if !isLk || lk.CommaOk {
+								return
+							}
+							if u, isU := lk.X.(*ssa.UnOp); isU && u.X == ssa.Value(g) {
+								c.bad(rule, "complement table:read through ComplementBase", lk.Pos(), fname(f)+" indexes the complement table directly; the table does not list "+strings.Join(lacking, ", ")+" (ComplementBase leaves those letters unchanged), so this reader turns them into the zero rune")
+							}
+						})
+					}
+				}
+			}
+		}
+		for k, v := range oracleComplement() {
+			if _, have := m[k]; !have && k == v {
+				m[k] = k // listed nowhere, left unchanged: its own complement
+			}
+		}
 	}
 	// the table must not be written anywhere else in the module
 	writers := globalWriters(c, "transform", name)
